@@ -33,6 +33,7 @@ from .constants import PubKeyAlgorithm
 from .constants import RevocationKeyClass
 from .constants import RevocationReason
 from .constants import SignatureType
+from .constants import String2KeyType
 from .constants import SymmetricKeyAlgorithm
 from .constants import SecurityIssues
 
@@ -1442,6 +1443,11 @@ class PGPKey(Armorable, ParentRef, PGPObject):
         return isinstance(self._key, Primary) and not isinstance(self._key, Sub)
 
     @property
+    def _is_stub(self):
+        # a secret key packet that only says where the secret material is (GNU S2K extension 101)
+        return (not self.is_public) and self._key.keymaterial.s2k.specifier == String2KeyType.GNUExtension
+
+    @property
     def is_protected(self):
         """``True`` if this is a private key that is protected with a passphrase, otherwise ``False``"""
         if self.is_public:
@@ -1811,14 +1817,15 @@ class PGPKey(Armorable, ParentRef, PGPObject):
             yield self
             return
 
-        if not self.is_protected:
+        # a component that is not passphrase-protected has nothing to decrypt, and nothing that may be wiped afterwards;
+        # neither has a stub without secret material (GnuPG's gnu-dummy and smartcard S2K extension)
+        protected = [sk for sk in itertools.chain([self], self.subkeys.values()) if sk.is_protected and not sk._is_stub]
+
+        if not protected:
             # we can't unprotect private keys that are not protected, because there is no ciphertext to decrypt
             warnings.warn("This key is not protected with a passphrase", stacklevel=3)
             yield self
             return
-
-        # a subkey that is not passphrase-protected has nothing to decrypt, and nothing that may be wiped afterwards
-        protected = [sk for sk in itertools.chain([self], self.subkeys.values()) if sk.is_protected]
 
         try:
             for sk in protected:
